@@ -2,7 +2,7 @@ package raft
 
 // C05 / C01.V*: the vote handler, for every voter state and every request.
 
-//verif:check C05 stubs=env,valuefile reach=granted,refused,end desc="onVoteRequest from any (term,votedFor,leader,lastLog) and any request: granted => durable (term,candidate); term file monotone; reply term <= durable term" bounds="all 64-bit values; one request"
+//verif:check C05,C01,C17 stubs=env,valuefile reach=granted,refused,end desc="onVoteRequest from any (term,votedFor,leader,lastLog) and any request: granted => durable (term,candidate); term file monotone; reply term <= durable term" bounds="all 64-bit values; one request"
 func VH_C05_vote_durable() {
 	r := vMkRaft(vU64("nid"))
 	vSymTermState(r)
